@@ -19,7 +19,7 @@ arg: None | id < n (that node) | id >= n (an object that is not a BinaryNode); f
 (which user hook `_BinaryNode__{pre,post}_assign_{parent,children}` raises).
 """
 from __future__ import annotations
-import itertools, random
+import itertools, random, zlib
 import core
 from runner import Case
 
@@ -68,7 +68,8 @@ def op_token(op) -> str:
 
 def line_of(data, assertions=None) -> str:
     a = data.get("asrt", 1) if assertions is None else (1 if assertions else 0)
-    return f"cls=binary n={data['n']} asrt={a} ops= " + " ".join(op_token(o) for o in data["ops"])
+    io = f" inorder={data['inorder']}" if data.get("inorder") is not None else ""
+    return f"cls=binary n={data['n']} asrt={a}{io} ops= " + " ".join(op_token(o) for o in data["ops"])
 
 
 def mk_case(data, tags=()):
@@ -297,6 +298,12 @@ def impl_history(data, assertions=None) -> str:
             for op in data["ops"]:
                 ok = w.apply(op)
                 parts.append(("ok " if ok else "rej ") + w.dump())
+            if data.get("inorder") is not None:
+                # tie of the bridge BinStore.btreeOf (BinBridge.*): what the read-only functions see on the final state
+                from bigtree import inorder_iter
+                ids = [w.name(x) for x in inorder_iter(w.nodes[data["inorder"]])]
+                parts.append("inorder " + (",".join(ids) if ids else "-") + " leaf "
+                             + "".join("1" if nd.is_leaf else "0" for nd in w.nodes))
     except Hang:
         parts.append("hang")          # never produced by the model: reported as a disagreement
     return " ; ".join(parts) if parts else "-"
@@ -307,7 +314,7 @@ def impl(case):
     # measured input distribution: outcome of the last call (the transition under test in the exhaustive part)
     # and the share of refused calls in the history
     parts = out.split(" ; ")
-    heads = [p.split(" ", 1)[0] for p in parts if p != "-"]
+    heads = [p.split(" ", 1)[0] for p in parts if p != "-" and not p.startswith("inorder ")]
     if heads:
         rej = sum(1 for h in heads if h == "rej")
         case.tags = tuple(case.tags) + ("last=" + heads[-1], "rej-share=%d%%" % (10 * round(10 * rej / len(heads))),)
@@ -772,7 +779,17 @@ def gen(rng: random.Random, tier: str):
     cases += [mk_case(d, tags) for d, tags in exh]
     for d in gen_histories(rng, tier, 0.25):
         cases.append(mk_case(d, ("random", "n=%d" % d["n"], "len>=20" if len(d["ops"]) >= 20 else "len<20")))
-    return cases
+    return [with_inorder(c) for c in cases]
+
+
+def with_inorder(case):
+    """checks-on histories also compare inorder_iter from one node (a function of the case: the generator's random
+    stream is untouched) and is_leaf of every node of the final state with the model's read-back (BinBridge.*)"""
+    d = case.data
+    if d.get("asrt", 1) != 1 or d["n"] < 1:
+        return case
+    nd = dict(d, inorder=zlib.crc32(case.line.encode()) % d["n"])
+    return mk_case(nd, tuple(case.tags) + ("inorder",))
 
 
 # ------------------------------------------------------------------ plug-ins for C02 / C20 (BinaryNode part)
